@@ -1,5 +1,6 @@
 """C20 - UDP operator reports are faithful; scrape export is replaced atomically."""
 import os
+import time
 
 from vlib import *
 from storage import *
@@ -115,8 +116,86 @@ def mutate_partial(evs):
     return None
 
 
+
+def stats_e2e(ctx):
+    """(c) the real statistics worker: per-client table and totals of the HTML file of a running tracker."""
+    import re
+    from net import Tracker, free_port, udp_wait_ready, UdpClient, connect_req, announce_req, decode_reply, info_hash
+    import udp_e2e
+    port = free_port()
+    html = ctx.path("stats.html")
+    cfg = udp_e2e.udp_config(port, "mio", mode="off")
+    cfg["cleaning"]["torrent_cleaning_interval"] = 1
+    cfg["statistics"] = {"interval": 1, "peer_clients": True, "torrent_peer_histograms": True,
+                         "write_html_to_file": True, "html_file_path": html}
+    t = Tracker(ctx, "udp", cfg, "c20_stats")
+    events = [{"ev": "reset", "run": 0}]
+
+    def pid_bytes(p):
+        prefix = b"-qB4250-" if p < 100 else b"-TR3000-"
+        return prefix + ("%012d" % p).encode()
+
+    def read_html():
+        text = open(html).read()
+        clients = []
+        m = re.search(r"<tbody>(.*?)</tbody>\s*</table>\s*$", text[text.rfind("<thead>"):], re.S)
+        body = text[text.rfind("<tbody>"):]
+        for row in re.findall(r"<tr>\s*<td>([^<]*)</td>\s*<td>([^<]*)</td>\s*</tr>", body):
+            clients.append([row[0].strip().split(" ")[0], int(row[1].strip().replace(",", ""))])
+        nums = re.findall(r"<td>\s*([0-9,]+)\s*\*</td>", text)
+        return clients, int(nums[0].replace(",", "")), int(nums[1].replace(",", ""))
+
+    cl = None
+    try:
+        udp_wait_ready(("127.0.0.1", port), tracker=t)
+        cl = UdpClient("127.0.0.2", ("127.0.0.1", port))
+        cl.send(connect_req(1))
+        cid = decode_reply(cl.recv(2.0)[0], 4)["conn_id"]
+        tx = [100]
+
+        def ann(h, aport, pid, event="started", left=1):
+            tx[0] += 1
+            cl.send(announce_req(cid, tx[0], info_hash(h), pid_bytes(pid), left, event, aport))
+            r = cl.recv(2.0)
+            if not r:
+                raise ToolError("no announce reply")
+            events.append({"ev": "announce", "h": h, "key": ["127.0.0.2", aport], "pid": pid, "event": event, "left": left})
+
+        def snapshot():
+            time.sleep(3.2)     # > cleaning interval + statistics interval
+            clients, torrents, peers = read_html()
+            events.append({"ev": "html", "clients": clients, "torrents4": torrents, "peers4": peers})
+
+        ann(1, 7001, 1)
+        ann(2, 7001, 1)           # the same peer id in two torrents: one distinct id
+        ann(1, 7002, 101, left=0)
+        snapshot()
+        ann(1, 7001, 2)           # same address, new peer id (id 1 still stored in torrent 2)
+        snapshot()
+        ann(2, 7001, 1, event="stopped")
+        ann(1, 7003, 102)
+        snapshot()
+        ann(1, 7002, 101, event="stopped")
+        ann(1, 7003, 102, event="stopped")
+        snapshot()
+        if not t.alive():
+            events.append({"ev": "tracker_died", "stderr": t.stderr()[-400:]})
+    finally:
+        if cl:
+            cl.close()
+        t.stop()
+    tp = ctx.path("stats.ndjson")
+    with open(tp, "w") as f:
+        for ev in events:
+            f.write(json.dumps(ev, separators=(",", ":")) + "\n")
+    validate_and_report(ctx, "Stats_Trace", "Stats_Trace.cfg", tp, "stats",
+                        lambda ev, pre, st: {"tracker": "udp", "part": "statistics_worker"})
+    ctx.coverage["statistics_worker_snapshots"] = [e for e in events if e["ev"] == "html"]
+
+
 def run(ctx):
     export_crashes(ctx)
+    stats_e2e(ctx)
     # (a) reports: tally / totals / export on the model, then on the code
     for c in ["UdpSwarm_MC_B.cfg", "UdpSwarm_MC_C.cfg"]:
         res = run_tlc(ctx, "UdpSwarm_MC", c, workers=8, timeout=900)
